@@ -11,8 +11,8 @@ RULE = ("histories over 4 paths in 2 directories and a pool of 5 contents (empty
 
 def run(prop, tier, seed, replay, only=" C02 ", tb=TB):
     v = vlib.Verdict(prop, tier, seed)
-    st = common.front(v, prop, need_cli=True, profiles=("release",))
-    extra = ["--copia", vlib.COPIA]
+    st = common.front(v, prop, need_cli=True, need_shim=True, profiles=("release",))
+    extra = ["--copia", vlib.COPIA, "--shim", vlib.SHIM]
     res = common.correspondence(v, st, prop, "c02", "cbisync", tier, seed, replay, profiles=("release",), extra=extra,
                                 model_desc="Model/Bisync.v (hrun: state after every operation, exit and plan of every run)",
                                 impl_desc="real `copia bisync` on generated histories", only=only)
